@@ -94,7 +94,7 @@ Proof.
   destruct (scan_users t now h (s_users s)) as [us ids]. cbn [snd].
   destruct ids as [|[j x] [|e r]].
   - discriminate.
-  - cbn [snd]. intro H. inversion H; subst. reflexivity.
+  - destruct (hinsert h j (s_hcache s) (s_hrev s)). cbn [snd]. intro H. inversion H; subst. reflexivity.
   - destruct (remove_offending us ((j, x) :: e :: r)). discriminate.
 Qed.
 
@@ -104,7 +104,7 @@ Lemma miss_complete t now s h id :
 Proof.
   unfold lookup_miss, recognised_by. rewrite <- scan_users_ids.
   destruct (scan_users t now h (s_users s)) as [us ids]. cbn [snd].
-  destruct ids as [|[j x] [|e r]]; cbn [map fst]; intro H; inversion H. reflexivity.
+  destruct ids as [|[j x] [|e r]]; cbn [map fst]; intro H; inversion H. destruct (hinsert h id (s_hcache s) (s_hrev s)). reflexivity.
 Qed.
 
 Lemma miss_ambiguous t now s h :
